@@ -325,8 +325,14 @@ def _sample2(spec, ctx):
     tau_edge = float(arch.Arch(FAM[e.name.value], e.theta).tau())
     # the sampler clips conditional uniforms at 0.99 (documented in DESIGN.md section 5): allow that mass
     eps = stats.dkw_eps(n) + 0.011
+    from copulas.univariate import GaussianKDE
+    ctx.check(len(model.unis) == 2 and len(model.ppfs) == 2, 'sample.marginals-are-this-fit', 'C17:vine-keeps-marginals-of-an-earlier-fit',
+              lambda: dict(where, unis=len(model.unis), ppfs=len(model.ppfs)))
     for j, c in enumerate(['a', 'b']):
-        dks = stats.ks_distance(out[c].to_numpy(), model.unis[j].cdf)
+        # "the fitted marginals" are the marginals of THIS training table: a kernel estimate fitted here to the column
+        fresh = GaussianKDE()
+        fresh.fit(df[c].to_numpy().copy())
+        dks = stats.ks_distance(out[c].to_numpy(), fresh.cdf)
         ctx.check(dks <= eps, 'sample.marginal-dkw', 'C17:sampled-column-not-fitted-marginal',
                   lambda: dict(where, column=c, ks=dks, band=eps))
         ctx.maxstat('vine sample KS / band', dks / eps, where)
